@@ -28,7 +28,7 @@ PrefixLevelV(c, argv, start, cur, fsat, fsskip, via) ==
          IN IF (Set(c, "args_conflicts_with_subcommands") /\ st.valid) \/ si = 0 \/ SubView(c)[si].auto
             THEN [ok |-> FALSE, ext |-> FALSE, c |-> c, st |-> st, via |-> via]
             ELSE LET child == Build(c.subs[SubView(c)[si].i], c.childInh) IN
-                 IF keep THEN PrefixLevelV(child, argv, lr.x.i, st.cur, st.fsat, st.cur - st.fsat + 1, via \cup how)
+                 IF keep THEN PrefixLevelV(child, argv, lr.x.i, st.cur, st.fsat, st.fsskip, via \cup how)
                  ELSE PrefixLevelV(child, argv, lr.x.i + 1, 0, -1, 0, via \cup how)
     [] OTHER -> [ok |-> FALSE, ext |-> FALSE, c |-> c, st |-> lr.st, via |-> via]     \* error, help subcommand, panic
 PrefixLevel(c, argv, start, cur, fsat, fsskip) == PrefixLevelV(c, argv, start, cur, fsat, fsskip, {})
